@@ -128,7 +128,7 @@ def run(ctx):
     from gen.probes import probes
     for name, data in probes('C06'):
         ctx.count('probe'); one(ctx, data, None, seed=1)
-    n = 40 if ctx.quick else 3000
+    n = 40 if ctx.quick else 2000
     for pkg, meta, rng in stream(ctx, PROF, n):
         one(ctx, pkg.to_bytes(), meta, seed=rng.getrandbits(32))
         if ctx.evaluations % 15 == 1: ctx.sample({'body': meta['body'][:600]})
